@@ -1401,7 +1401,8 @@ def round3_checks(ctx, run, A, directed, tier):
         netw = mk_network(A, False)
         netw.node_weights = np.array([float(x) for x in w], dtype=rng.choice([np.float32, np.float64]))
         nk = [sum(w[j] for j in nodes if A[i, j]) + w[i] for i in nodes]
-        for tw in (None, min(w) / 2):
+        # typical weight a power of two: the corrected degrees stay dyadic, so `int(max/min)` is exact
+        for tw in (None, Fr(1, 8)):
             vk = nk if tw is None else [x / tw - 1 for x in nk]
             q = max(vk) / min(vk)
             nb = q.numerator // q.denominator + 1
